@@ -154,7 +154,10 @@ func runC14(c *Ctx) {
 			samePeer := peerOK && len(setX.Args) >= 2 && Same(setX.Args[1], fields["PeerID"])
 			c.Check(sameCid && samePeer, "C14.N2-latest-before-event", key+" › same CID and publisher", snd.Pos(), "the value stored and the value announced are the same CID for the same publisher", "event announces a different CID/publisher than the one stored as latest")
 			cntOK := fields["Count"] != nil && fields["Count"].Op == "param"
-			c.Check(peerOK && cntOK && fields["Cid"].Op == "param", "C14.N5-event-fields", key+" (success)", snd.Pos(), "event carries the notifier's CID and count parameters and the handler's publisher", "success event fields do not come from the finished sync")
+			if !cntOK && fields["Count"] != nil && ParamSlot()(fields["Count"], nil) {
+				cntOK = true // a field of the result struct the notifier is given
+			}
+			c.Check(peerOK && cntOK && ParamSlot()(fields["Cid"], nil), "C14.N5-event-fields", key+" (success)", snd.Pos(), "event carries the notifier's CID and count parameters and the handler's publisher", "success event fields do not come from the finished sync")
 		})
 	}
 	// a notification must not be droppable: no select offers the event send as one alternative among others
@@ -490,6 +493,57 @@ func syncedHeadRecorded(c *Ctx, rule string, sendFns []*ssa.Function) {
 				if hcall == nil {
 					c.Bad(rule, key, in.Pos(), "count passed to the success notifier is not the handler's result")
 					return
+				}
+				// the per-publisher routine may hand back a result struct (head and count together) that is passed on
+				// whole: then every success return of the routine fills its CID field with the root CID parameter
+				// itself (not a variable the segment loop advances) — and the notifier reads the fields of what it is given
+				if hc, ok := hcall.V.(*ssa.Call); ok && handle != nil && handle.Signature.Results().Len() == 2 {
+					if _, isStruct := handle.Signature.Results().At(0).Type().Underlying().(*types.Struct); isStruct {
+						_, g := c.Guarded(in, EqNil(Extract("1", Is(hcall))), true)
+						okHead, n := true, 0
+						var rootP *ssa.Parameter
+						for _, p := range handle.Params {
+							if strings.HasSuffix(types.Unalias(p.Type()).String(), "go-cid.Cid") && rootP == nil {
+								rootP = p
+							}
+						}
+						for _, hb := range handle.Blocks {
+							ret, isRet := hb.Instrs[len(hb.Instrs)-1].(*ssa.Return)
+							if !isRet || len(ret.Results) != 2 || c.RetX(ret, 1).Op != "nil" {
+								continue
+							}
+							n++
+							found := false
+							for _, v := range c.CellFields(c.RetX(ret, 0)) {
+								if v.V != nil && strings.HasSuffix(types.Unalias(v.V.Type()).String(), "go-cid.Cid") {
+									found = rootP != nil && strip(v).V == ssa.Value(rootP)
+									if sv := strip(v); !found && rootP != nil && ParamLike()(sv, nil) {
+										// the parameter's spill cell (its address is taken): fine if it is assigned only once, from the parameter
+										al := sv.Cell
+										if al == nil {
+											al, _ = sv.V.(*ssa.Alloc)
+										}
+										nSt := 0
+										if al != nil && al.Referrers() != nil && al.Comment == rootP.Name() {
+											for _, r := range *al.Referrers() {
+												if st, isSt := r.(*ssa.Store); isSt && st.Addr == ssa.Value(al) {
+													nSt++
+												}
+											}
+										}
+										found = nSt == 1
+									}
+								}
+							}
+							if !found {
+								okHead = false
+							}
+						}
+						_ = hc
+						c.Check(g && okHead && n > 0, rule, key, in.Pos(), "the result struct notified is the routine's own, on its err == nil edge, and carries the root CID parameter itself",
+							"success notification not tied to the sync that finished (the result handed on does not carry the root CID the routine was given, or is used on error)")
+						return
+					}
 				}
 				_, g := c.Guarded(in, EqNil(Extract("1", Is(hcall))), true)
 				// the CID notified is the root CID the handler was given (positional, or in a parameter object — then
